@@ -1,5 +1,6 @@
-(** Safety/RunNum.v — harness entry points of the numeric-site and walk models (one per mode; see modes.txt). *)
-From PdfV Require Import Base.Prelude Gen.Generated Lex.Lexer Codec.Model Safety.Front Safety.Numeric Safety.Walks.
+(** Safety/RunNum.v — harness entry points of the numeric-site and walk models of this area (one per mode; see modes.txt).
+    The sites owned by other areas have their correspondence modes in those areas (objstm, xref_stream, cid_widths, …). *)
+From PdfV Require Import Base.Prelude Gen.Generated Lex.Lexer Safety.Front Safety.Numeric Safety.Walks.
 
 Definition field (fs : list bytes) (i : nat) : bytes := nth i fs [].
 
@@ -65,58 +66,6 @@ Definition run_num_diff (fs : list bytes) : res (list bytes) :=
 Definition run_num_fnload (fs : list bytes) : res (list bytes) :=
   do n <- fn2_load (N_of_dec (field fs 0)) (opt_dec (field fs 1)) (opt_dec (field fs 2)) (opt_dec (field fs 3));
   Ok [dec_of_N 1; dec_of_N n].
-
-(* num_objstm: N First data index *)
-Definition run_num_objstm (fs : list bytes) : res (list bytes) :=
-  let n := Z_of_dec (field fs 0) in let first := Z_of_dec (field fs 1) in
-  if ((n <? 0) || (first <? 0))%Z then Err E_NUM else
-  let data := field fs 2 in
-  do offs <- objstm_header (S (length data)) (Z.to_N n) (mkLx 0 data) [];
-  do r <- objstm_slice (Z.to_N first) offs (lenN data) (N_of_dec (field fs 3));
-  Ok [dec_of_N (fst r); dec_of_N (snd r)].
-
-(* num_widths (model fields): items i<z> | a<n> *)
-Definition witem_of (t : bytes) : witem :=
-  match t with 105 :: r => WInt (Z_of_dec r) | 97 :: r => WArr (N_of_dec r) | _ => WOther end.
-Definition BLOWUP : N := 134217728.
-Definition run_num_widths (fs : list bytes) : res (list bytes) :=
-  do r <- widths_site (map witem_of (commas (field fs 0)));
-  if (BLOWUP <? fst r) || (BLOWUP <? snd r) then Ok [[66; 76; 79; 87; 85; 80]] else Ok [].
-
-(* num_crypt: V R Length|- CFM|- cf_length|- : the password never matches, so a key size means InvalidPassword / Other *)
-Definition cfm_of (t : bytes) : N :=
-  if kw [86; 50] t then 0 else if kw [65; 69; 83; 86; 50] t then 1 else if kw [65; 69; 83; 86; 51] t then 2 else 3.
-Definition run_num_crypt (fs : list bytes) : res (list bytes) :=
-  let bits := match opt_dec (field fs 2) with Some b => b | None => 40 end in
-  let cf := if is_dash (field fs 3) then None else Some (cfm_of (field fs 3), opt_dec (field fs 4)) in
-  do _ <- crypt_key_size (N_of_dec (field fs 0)) (N_of_dec (field fs 1)) bits cf;
-  Err E_NUM.
-
-(* num_pages (model fields): tree tokens "nkids,<node>…" with node = L | T,count,nkids,<node>… ; page_nr *)
-Fixpoint pnodes_of (fuel : nat) (k : N) (ts : list bytes) : option (list pnode * list bytes) :=
-  match fuel with
-  | O => None
-  | S f =>
-    if k =? 0 then Some ([], ts) else
-    match ts with
-    | [76] :: r => match pnodes_of f (k - 1) r with Some (ns, r') => Some (PLeaf :: ns, r') | None => None end
-    | [84] :: c :: nk :: r =>
-        match pnodes_of f (N_of_dec nk) r with
-        | Some (sub, r1) => match pnodes_of f (k - 1) r1 with Some (ns, r2) => Some (PTree (N_of_dec c) sub :: ns, r2) | None => None end
-        | None => None
-        end
-    | _ => None
-    end
-  end.
-Definition run_num_pages (fs : list bytes) : res (list bytes) :=
-  match commas (field fs 0) with
-  | nk :: ts =>
-    match pnodes_of (S (S (length ts))) (N_of_dec nk) ts with
-    | Some (kids, _) => do _ <- page_site kids (N_of_dec (field fs 1)); Ok []
-    | None => Err E_NUM
-    end
-  | [] => Err E_NUM
-  end.
 
 (* num_tree (model fields): adjacency "n:k.k.k;n:;…" (kids of each intermediate node), root *)
 Definition graph_of (f : bytes) : graph :=
